@@ -55,6 +55,8 @@ var procSem = make(chan struct{}, 16)
 var workDir = "/verif/work"
 
 type declSet struct {
+	boundMul bool // a product mentions a quantified variable: atom order is not stable under instantiation
+	needMul bool
 	vars  map[string]Sort
 	funs  map[string]string // name -> declaration
 	prods map[string]*Term  // key -> product atoms holder (a Mono-as-poly) for axioms
@@ -95,6 +97,7 @@ func collect(t *Term, d *declSet, bound map[string]bool) {
 	case "poly":
 		for _, m := range t.Monos {
 			if len(m.Atoms) >= 2 {
+				d.needMul = true
 				hasBound := false
 				for _, a := range m.Atoms {
 					a.walk(func(x *Term) {
@@ -102,6 +105,9 @@ func collect(t *Term, d *declSet, bound map[string]bool) {
 							hasBound = true
 						}
 					})
+				}
+				if hasBound {
+					d.boundMul = true
 				}
 				if !hasBound {
 					for n := 2; n <= len(m.Atoms); n++ {
@@ -162,8 +168,11 @@ func (o *Obligation) SMT() string {
 	rn := func(s string) string { return s }
 	if o.Native {
 		rn = renderNative
-	} else if len(d.prods) > 0 {
+	} else if d.needMul {
 		b.WriteString("(declare-fun mul (Int Int) Int)\n")
+		if d.boundMul {
+			b.WriteString("(assert (forall ((a!c Int) (b!c Int)) (! (= (mul a!c b!c) (mul b!c a!c)) :pattern ((mul a!c b!c)))))\n")
+		}
 		pk := make([]string, 0, len(d.prods))
 		for k := range d.prods {
 			pk = append(pk, k)
@@ -237,15 +246,28 @@ func (o *Obligation) rangeOf(t *Term) ([2]*big.Int, bool) {
 			return [2]*big.Int{bigZero, hi}, true
 		}
 	}
-	if t.Op == "poly" && len(t.Monos) == 1 && t.Monos[0].Coef.Sign() > 0 {
-		lo, hi := new(big.Int).Set(t.Monos[0].Coef), new(big.Int).Set(t.Monos[0].Coef)
-		for _, a := range t.Monos[0].Atoms {
-			r, ok := o.rangeOf(a)
-			if !ok || r[0].Sign() < 0 {
-				return [2]*big.Int{}, false
+	if t.Op == "poly" {
+		lo, hi := new(big.Int), new(big.Int)
+		for _, m := range t.Monos {
+			mlo, mhi := new(big.Int).Set(m.Coef), new(big.Int).Set(m.Coef)
+			for _, a := range m.Atoms {
+				r, ok := o.rangeOf(a)
+				if !ok {
+					return [2]*big.Int{}, false
+				}
+				c := []*big.Int{new(big.Int).Mul(mlo, r[0]), new(big.Int).Mul(mlo, r[1]), new(big.Int).Mul(mhi, r[0]), new(big.Int).Mul(mhi, r[1])}
+				mlo, mhi = c[0], c[0]
+				for _, x := range c[1:] {
+					if x.Cmp(mlo) < 0 {
+						mlo = x
+					}
+					if x.Cmp(mhi) > 0 {
+						mhi = x
+					}
+				}
 			}
-			lo.Mul(lo, r[0])
-			hi.Mul(hi, r[1])
+			lo.Add(lo, mlo)
+			hi.Add(hi, mhi)
 		}
 		return [2]*big.Int{lo, hi}, true
 	}
@@ -326,7 +348,7 @@ func (o *Obligation) Discharge(timeout int) {
 		return
 	}
 	// stage 1: fastest solver alone with a short timeout
-	first := 2
+	first := 1
 	if timeout < first {
 		first = timeout
 	}
